@@ -28,6 +28,13 @@
 /* caller-visible buffer of exactly n octets: one octet of overrun is a failed obligation */
 #define V_BUF(type, name, n) type* name = (type*)malloc((n) * sizeof(type)); \
 	__CPROVER_assume(name != 0)
+/* heap object of exactly n octets (n may be symbolic); contents are set by the harness */
+#define V_ALLOC(type, name, n) type* name = (type*)malloc(n); __CPROVER_assume(name != 0)
+/* buffer of exactly n elements (n symbolic, n <= max) that is only accessed forwards from
+   its start: right-aligned in a fixed array so that name + n is the end of the object
+   (a symbolic-size heap object makes the queries an order of magnitude larger) */
+#define V_TAIL(type, name, n, max) type name##_o[(max) ? (max) : 1]; type* name; \
+	__CPROVER_assume((n) <= (max)); name = name##_o + ((max) - (n))
 #define V_ASSUME(c) __CPROVER_assume(c)
 #define V_ASSERT(c, msg) __CPROVER_assert(c, msg)
 #ifdef VERIF_NO_CANARY
@@ -54,6 +61,9 @@ extern void* v_buf(const char* name, size_t n);
 #define V_IN(type, name) type name; v_read(#name, &name, sizeof(name))
 #define V_IN_ARR(type, name, n) type name[n]; v_read(#name, name, sizeof(name))
 #define V_BUF(type, name, n) type* name = (type*)v_buf(#name, (n) * sizeof(type))
+extern void* v_alloc(size_t n);
+#define V_ALLOC(type, name, n) type* name = (type*)v_alloc(n)
+#define V_TAIL(type, name, n, max) type* name; if ((n) > (max)) v_skip("V_TAIL bound"); name = (type*)v_alloc((n) * sizeof(type))
 #define V_ASSUME(c) do { if (!(c)) v_skip(#c); } while (0)
 #define V_ASSERT(c, msg) do { if (!(c)) v_fail(msg, __FILE__, __LINE__); } while (0)
 #define V_CANARY(msg) v_canary(msg)
